@@ -50,6 +50,10 @@ const (
 	// records every datagram lost that way with fate Drop.
 	Outage100ms Fate = 100
 	Outage1s    Fate = 101
+	// FlipSCID flips a bit in the first byte of the source connection ID of a long-header
+	// packet (in the middle byte if the datagram has a short header or an empty SCID): the
+	// one header field an endpoint learns from an unauthenticated first packet.
+	FlipSCID Fate = 102
 )
 
 var fateNames = [...]string{"deliver", "drop", "dup", "delay", "delaylong", "flip0", "flip7", "flipmid", "fliplast", "trunc1", "trunc20", "trunclast"}
@@ -63,6 +67,8 @@ func (f Fate) String() string {
 		return "outage100ms"
 	case Outage1s:
 		return "outage1s"
+	case FlipSCID:
+		return "flipscid"
 	}
 	return fmt.Sprintf("fate%d", int(f))
 }
@@ -168,6 +174,17 @@ func (r *Router) dirOf(p simnet.Packet) Dir {
 	return S2C
 }
 
+// FlipSCIDPos is the index of the byte the fate FlipSCID damages.
+func FlipSCIDPos(d []byte) int {
+	n := len(d)
+	if n > 7 && d[0]&0x80 != 0 {
+		if p := 6 + int(d[5]); p+1 < n && d[p] > 0 {
+			return p + 1
+		}
+	}
+	return n / 2
+}
+
 func mutate(data []byte, f Fate) []byte {
 	d := append([]byte(nil), data...)
 	n := len(d)
@@ -185,6 +202,8 @@ func mutate(data []byte, f Fate) []byte {
 		flip(n / 2)
 	case FlipLast:
 		flip(n - 1)
+	case FlipSCID:
+		flip(FlipSCIDPos(d))
 	case Trunc1:
 		if n > 1 {
 			d = d[:1]
